@@ -229,13 +229,15 @@ TRUSTED = [
 ]
 
 ASSUMPTIONS = [
-    "guards of the theorems (decidable, Properties/C04.v enum_guard): the package compiles; no const spec with a "
-    "qualified type such as time.Duration (open finding K_enum_foreign_carry) and none whose type is only inferred "
-    "from its expression such as `AB = A | B` (open finding K_enum_implicit_type); no two constants of the type "
+    "guards of the theorems (decidable, Properties/C04.v enum_guard): the package compiles; a const spec with a "
+    "qualified type such as time.Duration is not followed by a carried-down spec (open finding "
+    "K_enum_foreign_carry) and no spec's type is only inferred from its expression such as `AB = A | B` (open "
+    "finding K_enum_implicit_type); no two constants of the type "
     "with one value (open finding K_enum_dup) or with one trimmed name; each excluded class has a refutation "
     "theorem C04_refuted_<K> and its witness is replayed against the binary on every run",
-    "the comparison stream stays inside the guard (harmless qualified-type specs that are not followed by a "
-    "carried-down spec are inside); type names that collide after camelCase (Level/level) are kept out (C01)",
+    "the comparison stream stays inside the guard (checked per case inside Coq: EnumCorr.in_guard; a case in the "
+    "guard on which the MODEL's observation fails the boolean property is reported, verdict code 3); type names "
+    "that collide after camelCase (Level/level) are kept out (C01)",
     "stale guard: the edited package itself compiles; edits change an expression, insert a blank spec, swap two "
     "specs, rename a constant, add constants, or nothing",
 ]
